@@ -121,3 +121,68 @@ Example nan_payload_refuted :
   encode binary64 (decode binary64 0x7FF0000000000001) = 0x7FF8000000000000.
 Proof. reflexivity. Qed.
 Print Assumptions roundtrip.
+
+(* ---- float literals: a binary32 value written as the bit pattern of the equal double (0x + 16 hex digits, the
+   low 29 mantissa bits zero).  Ident prints Float64bits(x) &^ 0x1FFFFFFF after SetPrec(24). ---- *)
+Definition mask29 (bits : Z) : Z := bits / 2 ^ 29 * 2 ^ 29.
+
+Lemma ctz_divides (k : nat) : forall p, Zpos p mod 2 ^ Z.of_nat k = 0 -> Z.of_nat k <= ctz p.
+Proof.
+  induction k as [|k IH]; intros p H; [pose proof (ctz_nonneg p); lia|].
+  rewrite Nat2Z.inj_succ, Z.pow_succ_r in H by lia.
+  destruct p as [q|q|].
+  - exfalso. assert (Zpos q~1 mod 2 = 0) as E.
+    { apply Z.mod_divide; [lia|]. apply Z.mod_divide in H; [|pose proof (Z.pow_pos_nonneg 2 (Z.of_nat k)); lia].
+      destruct H as [c Hc]. exists (c * 2 ^ Z.of_nat k). lia. }
+    rewrite Pos2Z.inj_xI in E. rewrite Z.add_comm, Z.mul_comm, Z.mod_add in E by lia. discriminate.
+  - cbn [ctz]. rewrite Nat2Z.inj_succ. assert (Z.of_nat k <= ctz q); [|lia]. apply IH.
+    apply Z.mod_divide; [pose proof (Z.pow_pos_nonneg 2 (Z.of_nat k)); lia|].
+    apply Z.mod_divide in H; [|pose proof (Z.pow_pos_nonneg 2 (Z.of_nat k)); lia].
+    destruct H as [c Hc]. exists c. rewrite Pos2Z.inj_xO in Hc. lia.
+  - exfalso. pose proof (Z.pow_pos_nonneg 2 (Z.of_nat k)). rewrite Z.mod_small in H; [discriminate|]. nia.
+Qed.
+
+(* the odd mantissa of a positive multiple of 2^29 below 2^53 has at most 24 bits *)
+Lemma odd_part_small p : Zpos p mod 2 ^ 29 = 0 -> Zpos p < 2 ^ 53 -> Zpos (odd_part p) < 2 ^ 24.
+Proof.
+  intros Hd Hb. pose proof (ctz_divides 29 p Hd) as Hc. pose proof (odd_part_spec p) as Hs.
+  assert (2 ^ 29 <= 2 ^ ctz p) by (apply Z.pow_le_mono_r; lia).
+  assert (0 < Zpos (odd_part p)) by lia.
+  assert (Zpos (odd_part p) * 2 ^ 29 <= Zpos p) by nia.
+  change (2 ^ 53) with (2 ^ 24 * 2 ^ 29) in Hb. nia.
+Qed.
+
+Theorem float_in_double_roundtrip s E M : 0 <= E < 2 ^ 11 -> 0 <= M < 2 ^ 52 -> M mod 2 ^ 29 = 0 ->
+  is_nan_bits binary64 (compose binary64 s E M) = false ->
+  mask29 (encode binary64 (decode binary64 (compose binary64 s E M))) = compose binary64 s E M.
+Proof.
+  intros HE HM Hd Hn. rewrite (roundtrip_binary64 s E M HE HM Hn). unfold mask29.
+  assert ((compose binary64 s E M) mod 2 ^ 29 = 0) as D.
+  { unfold compose, sign_bit. cbn [ew mw binary64].
+    apply Z.mod_divide in Hd; [|lia]. destruct Hd as [c ->].
+    apply Z.mod_divide; [lia|].
+    destruct s; [exists (2 ^ 34 + E * 2 ^ 23 + c)|exists (E * 2 ^ 23 + c)];
+      change (2 ^ (11 + 52)) with (2 ^ 34 * 2 ^ 29); change (2 ^ 52) with (2 ^ 23 * 2 ^ 29); lia. }
+  pose proof (Z.div_mod (compose binary64 s E M) (2 ^ 29) ltac:(lia)) as DM. rewrite D in DM. lia.
+Qed.
+
+(* SetPrec(24) loses nothing on such a literal: the value has at most 24 significant bits *)
+Theorem float_in_double_fits_24_bits s E M : 0 <= E < 2 ^ 11 -> 0 <= M < 2 ^ 52 -> M mod 2 ^ 29 = 0 ->
+  match decode binary64 (compose binary64 s E M) with FFin _ m _ => Zpos m < 2 ^ 24 | _ => True end.
+Proof.
+  intros HE HM Hd.
+  destruct (split_fields binary64 ltac:(cbn; lia) ltac:(cbn; lia) s E M HE HM) as (S1 & S2 & S3).
+  unfold decode. rewrite S1, S2, S3. cbn [ew mw binary64] in *.
+  destruct (E =? emax_field binary64); [destruct (M =? 0); exact I|].
+  destruct (E =? 0).
+  - destruct M as [|p|p]; try exact I. unfold norm. apply odd_part_small; [exact Hd|lia].
+  - destruct (2 ^ 52 + M) as [|p|p] eqn:Ep; try exact I. unfold norm. apply odd_part_small.
+    + rewrite <- Ep. apply Z.mod_divide in Hd; [|lia]. destruct Hd as [c ->]. apply Z.mod_divide; [lia|].
+      exists (2 ^ 23 + c). change (2 ^ 52) with (2 ^ 23 * 2 ^ 29). lia.
+    + rewrite <- Ep. change (2 ^ 53) with (2 ^ 52 + 2 ^ 52). lia.
+Qed.
+Print Assumptions float_in_double_roundtrip.
+Example float_in_double_example :
+  mask29 (encode binary64 (decode binary64 0x3FF8000000000000)) = 0x3FF8000000000000 /\
+  0x3FF8000000000000 = compose binary64 false 0x3FF 0x8000000000000 /\ 0x8000000000000 mod 2 ^ 29 = 0.
+Proof. vm_compute. repeat split. Qed.
